@@ -13,7 +13,9 @@ TX = [(r'dtn://far/.*', None), (r'dtn://frag/.*', FRAG_MTU), (r'dtn://tiny/.*', 
       (r'dtn://node/.*', None)]
 OUTCOMES = {'deliver': '//node/app', 'forward': '//far/x', 'fwdfrag': '//frag/x', 'delete': '//del/x',
             'noroute': '//nowhere/x', 'fwdnotx': '//lost/x', 'fwdunsend': '//tiny/x', 'secfail': '//node/sec'}
-LATE = {'fwdlate': '//lost/x'}      # only inside histories: the route for dtn://lost/ has appeared by then
+LATE = {'fwdlate': '//lost/x',      # only inside histories: the route for dtn://lost/ has appeared by then
+        'fraghold': '//node/app',   # a fragment at its destination, held for reassembly
+        'fragfinal': '//node/app'}  # the fragment that completes the reassembly
 SEC_REASONS = (12, 13, 14, 15, 16)
 
 
@@ -91,12 +93,20 @@ def observe(case, obs):
 def monitors(chk, case, obs):
     ''' every bundle of the case (most cases have one) against the property text, on its own window of
     observations (reception + the idle sources drained after it) '''
+    delivered_subjects = []
     for ix, it in enumerate(case['items']):
         earlier = [(A.eid_text(j['b']['pri']['src']), list(j['b']['pri']['ts'])) for j in case['items'][:ix]]
-        _monitor_item(chk, case, it, [o for o in obs if o['item'] == ix], it.get('outcome', case['outcome']), earlier)
+        win = [o for o in obs if o['item'] == ix]
+        _monitor_item(chk, case, it, win, it.get('outcome', case['outcome']), earlier, delivered_subjects)
+        for o in win:
+            for h in o['tx']:
+                d = A.dec_bundle(bytes.fromhex(h))
+                rec = decode_report(d) if (d.pri['flags'] & A.F_ADMIN and d.pri['src'] == A.NODE) else None
+                if rec and rec['infos']['deliver'][0]:
+                    delivered_subjects.append(A.report_subject(d))
 
 
-def _monitor_item(chk, case, it, obs, outcome, earlier):
+def _monitor_item(chk, case, it, obs, outcome, earlier, earlier_delivered=()):
     p = it['b']['pri']
     flags = p['flags']
     rj = replay_obj(case)
@@ -119,9 +129,29 @@ def _monitor_item(chk, case, it, obs, outcome, earlier):
     chk.count('outcome:%s' % outcome)
     chk.count('reports:%d' % len(reports))
     tag = 'flags=%#x rpt=%s outcome=%s' % (flags, case['rpt'], outcome)
+    if outcome == 'fraghold':
+        # held for reassembly: nothing happened to the bundle yet (the code as it stands sends no report at all,
+        # not even a requested reception report: counted, the property says "only if")
+        for r in reports:
+            rec = decode_report(r)
+            if rec and rec['infos']['deliver'][0]:
+                chk.violation('C19:fragment-held-for-reassembly-reported-delivered',
+                              '%s: fragment offset %d of %d held for reassembly, yet a report asserts delivered: %s'
+                              % (tag, p['foff'], p['tlen'], rec['infos']), rj)
+            else:
+                chk.violation('C19:report-content-wrong', '%s: report for a fragment held for reassembly: %s'
+                              % (tag, rec and rec['infos']), rj)
+        if not reports and flags & A.F_RCV:
+            chk.count('fraghold:requested-reception-report-not-sent')
+        return
+    if outcome == 'fragfinal':
+        said = [r for r in reports if (decode_report(r) or {'infos': {'deliver': (False, None)}})['infos']['deliver'][0]]
+        if len(said) > 1 or (said and (A.eid_text(p['src']), list(p['ts'])) in earlier_delivered):
+            chk.violation('C19:subject-reported-delivered-twice',
+                          '%s: %d reports assert delivery of the reassembled bundle' % (tag, len(said)), rj)
     for r in reports:
         subj = A.report_subject(r)
-        if subj in earlier:
+        if subj in earlier and outcome != 'fragfinal':
             chk.violation('C19:second-report-for-earlier-bundle',
                           '%s: while this bundle was processed a status report about the EARLIER bundle %s was sent: %s'
                           % (tag, subj, decode_report(r) and decode_report(r)['infos']), rj)
@@ -215,7 +245,7 @@ def replay_obj(case):
     return {'flags': case['flags'], 'rpt': case['rpt'], 'outcome': case['outcome'], 'rx': RX, 'tx': TX,
             'items': [dict({'b': it['b'], 'now': it['now'], 'crc_ok': True, 'dwell': it.get('dwell', 0),
                             'params': it.get('params', {})},
-                           **{k: it[k] for k in ('add_tx', 'outcome') if k in it}) for it in case['items']]}
+                           **{k: it[k] for k in ('add_tx', 'outcome', 'reasm_b') if k in it}) for it in case['items']]}
 
 
 def run_cases(chk, cases):
@@ -257,6 +287,30 @@ def mk_history(flags_a, flags_b, late_route=True, seq=60):
     return a
 
 
+def mk_fragments(flags, nfrag=2, order=None, seq=90, rpt='eid'):
+    ''' A bundle arriving at its destination (delivery route) as `nfrag` fragments, in the given order. A fragment
+    held for reassembly is not delivered: no report may say so; the reassembled bundle is delivered once. '''
+    total = 4 * nfrag
+    order = list(order or range(nfrag))
+    items = []
+    for pos, k in enumerate(order):
+        it = mk_case(flags | A.F_FRAG, rpt, 'deliver', seq=seq, plen=4)['items'][0]
+        it['b']['pri']['foff'], it['b']['pri']['tlen'] = 4 * k, total
+        it['b']['blocks'][-1]['btsd'] = bytes(range(4 * k, 4 * k + 4)).hex()
+        it['now'] += 3 * pos
+        it['outcome'] = 'fragfinal' if pos == nfrag - 1 else 'fraghold'
+        items.append(it)
+    # what Fragment._reassemble re-injects when the last fragment arrives: the first fragment's primary block
+    # without the fragment flag (a parameter of the model, like the reassembly step itself)
+    first = [it for it in items if it['b']['pri']['foff'] == 0][0]
+    q = dict(first['b']['pri'])
+    q['flags'] &= ~A.F_FRAG
+    q['foff'] = q['tlen'] = 0
+    items[-1]['reasm_b'] = {'pri': q, 'rpt_none': first['b'].get('rpt_none', False),
+                            'blocks': [dict(k) for k in first['b']['blocks']]}
+    return {'flags': flags, 'rpt': rpt, 'outcome': 'fraghold', 'items': items}
+
+
 def d14_witness():
     ''' the former D14 witness (Props/C19.lean, d14Ctr) on the real agent: deletion and forwarding reports
     requested, routed forward, transmit route whose MTU makes the fragment step consume the bundle '''
@@ -287,6 +341,10 @@ def run(chk):
         for fb in (A.F_FWD | A.F_DEL, ANYREQ, 0):
             for late in (True, False):
                 cases.append(mk_history(fa, fb, late))
+    for fl in (A.F_DLV, A.F_DLV | A.F_RCV | A.F_TIME, ANYREQ, A.F_RCV, 0):
+        cases.append(mk_fragments(fl, 2))
+        cases.append(mk_fragments(fl, 2, order=[1, 0], seq=91))
+        cases.append(mk_fragments(fl, 3, order=[2, 0, 1], seq=92))
     for bits in range(32):
         flags = sum(b for i, b in enumerate(REQBITS) if bits >> i & 1)
         for rpt in RPTS:
